@@ -95,7 +95,7 @@ func (s *serverSet) remotePort() int {
 
 func main() {
 	run = h.NewRun(prop, "exploration")
-	run.Rule = "scenarios from the case PRNG: A supply mode x pool size x users (exactly-once join), B pool bounds (pool_count 0..8 and hostile values x maxPoolCount 1..5, unsolicited floods), C session end with teardown / registration gates, D hand-off gate per accept path, F announcement (proxy name, user address) on each of 10 accept paths (visitor clients over tcp, kcp and quic), G 6-12 simultaneous users with slow answers on one vhost http route, I a real frpc withdraws a proxy (health check) while a user connection accepted for it is parked in the NewUserConn chain, H CONNECT requests on the vhost http port of a tcpMux=false server whose owner only supplies work connections that are already reset; distinct = distinct (scenario, parameters, hook trace signature)"
+	run.Rule = "scenarios from the case PRNG: A supply mode x pool size x users (exactly-once join), B pool bounds (pool_count 0..8 and hostile values x maxPoolCount 1..5, unsolicited floods), C session end with teardown / registration gates, D hand-off gate per accept path, F announcement (proxy name, user address) on each of 10 accept paths (visitor clients over tcp, kcp and quic), G 6-12 simultaneous users with slow answers on one vhost http route, I a real frpc withdraws a proxy (health check) while a user connection accepted for it is parked in the NewUserConn chain, J a child frps with a lowered descriptor limit takes a burst of users (accept fails with EMFILE for a while) and must serve later users once descriptors are free again, H CONNECT requests on the vhost http port of a tcpMux=false server whose owner only supplies work connections that are already reset; distinct = distinct (scenario, parameters, hook trace signature)"
 	run.Assumptions = []string{
 		"users are identified by a 16-byte nonce they send first; work connections are numbered by the scripted client that opens them",
 		fmt.Sprintf("userConnTimeout is %d s; 'closed within the timeout' is decided by a %v bounded-progress watchdog (still open afterwards = left open)", userConnTimeoutS, closeGrace),
@@ -132,6 +132,7 @@ func main() {
 	startPluginServer()
 	run.ParallelRange(2000000, run.N(12, 240), 12, scenarioPluginReject)
 	run.ParallelRange(6000000, run.N(4, 48), 4, scenarioWithdrawnProxy)
+	run.ParallelRange(7000000, run.N(2, 16), 2, scenarioDescriptorExhaustion)
 	for _, s := range servers {
 		s.srv.Close()
 	}
@@ -1424,4 +1425,86 @@ healthCheck.maxFailed = 1
 		}
 	}
 	run.Distinct(fmt.Sprintf("withdrawn|%d", c.Idx%8))
+}
+
+// ---------------------------------------------------------------------------------------------
+// J. transient accept errors: a child frps (vnode) with a lowered descriptor limit takes a burst of simultaneous
+// users, so that accept on the proxy's listener fails with EMFILE for a while. When the burst is over and
+// descriptors are free again, the proxy is still registered — so later users must be served: an accept loop that
+// gave up on the first such error leaves them connected (kernel backlog) and unserved for ever.
+
+func scenarioDescriptorExhaustion(c *h.Case) {
+	ps := h.PortsSub(prop, 3, 4)
+	bind, rport := ps.Get(), ps.Get()
+	cfg := fmt.Sprintf("bindAddr = \"127.0.0.1\"\nbindPort = %d\nauth.token = \"%s\"\nuserConnTimeout = %d\nallowPorts = [{single=%d}]\n", bind, token, userConnTimeoutS, rport)
+	limit := []int{64, 80, 96}[c.Idx%3]
+	child, err := h.StartChild(prop, "frps", cfg, fmt.Sprintf("VNODE_NOFILE=%d", limit), "VNODE_LOG=info")
+	if err != nil {
+		run.Inconclusive("child frps did not start")
+		return
+	}
+	defer child.Kill()
+	p, err := h.DialPeer(h.PeerOpts{ServerPort: bind, TCPMux: true, Token: token, AutoWork: true, WorkHandler: h.IdentBackend("DX", token, false, false, nil)})
+	if err != nil || !p.LoggedIn() {
+		run.Inconclusive("login at the child frps failed")
+		return
+	}
+	defer p.Close()
+	pname := fmt.Sprintf("x%d.tcp", c.Idx)
+	if r, err := p.NewProxy(&msg.NewProxy{ProxyName: pname, ProxyType: "tcp", RemotePort: rport}, 10*time.Second); err != nil || r.Error != "" {
+		run.Inconclusive("registration at the child frps failed")
+		return
+	}
+	addr := fmt.Sprintf("127.0.0.1:%d", rport)
+	if id, err := h.AskIdent(addr, 10*time.Second); err != nil || id != "DX|"+pname {
+		run.Inconclusive("the tunnel through the child frps does not work before the burst")
+		return
+	}
+	// the burst: far more simultaneous users than the child has descriptors; they stay connected for a moment
+	var burst []net.Conn
+	for i := 0; i < 3*limit; i++ {
+		if uc, err := net.DialTimeout("tcp", addr, 2*time.Second); err == nil {
+			burst = append(burst, uc)
+		}
+	}
+	time.Sleep(1500 * time.Millisecond)
+	for _, uc := range burst {
+		uc.Close()
+	}
+	if child.Exited() {
+		c.Data["stderr_tail"] = child.Stderr()
+		c.Violation("frps-died-under-descriptor-exhaustion", "the child frps (descriptor limit %d) exited during a burst of %d users", limit, len(burst))
+		return
+	}
+	outB, _ := os.ReadFile(child.OutPath) // frp's console log goes to the child's stdout
+	hit := strings.Contains(string(outB)+child.Stderr(), "too many open files")
+	if !hit {
+		run.Inconclusive("the burst did not exhaust the child's descriptors (no accept error seen)")
+		return
+	}
+	run.Count("descriptor_exhaustion_bursts", 1)
+	time.Sleep(1500 * time.Millisecond) // descriptors are free again, the retry delay of the accept loop (at most 1 s) is over
+	if !p.Closed() {
+		if _, err := p.Ping(10 * time.Second); err != nil {
+			run.Inconclusive("the owner's session did not survive the burst")
+			return
+		}
+	} else {
+		run.Inconclusive("the owner's session did not survive the burst")
+		return
+	}
+	served := 0
+	var lastErr error
+	for i := 0; i < 3; i++ {
+		id, err := h.AskIdent(addr, closeGrace)
+		if err == nil && id == "DX|"+pname {
+			served++
+		} else {
+			lastErr = err
+		}
+	}
+	if served == 0 {
+		c.Violation("user-connection-left-open-without-peer-after-accept-error", "child frps with descriptor limit %d: accept on the proxy's listener failed with 'too many open files' during a burst of %d users; after the burst the owner's session is alive and the proxy registered, yet 3 later users were neither served nor closed within %v (%v): the accept loop is gone", limit, len(burst), closeGrace, lastErr)
+	}
+	run.Distinct(fmt.Sprintf("nofile|%d", limit))
 }
